@@ -2,5 +2,7 @@
 EXTENDS Crypto, Json, CSV, IOUtils, SequencesExt
 Export == CSVWrite("%1$s", <<ToJson([hist |-> hist', blocks |-> blocks', mode |-> mode', encf |-> encf'])>>, IOEnv.VERIF_OUT)
 ExportLeaves == (nupd' = MaxUpdates) => Export
+\* complete behaviours that contain a peer write followed by at least one owner update
+ExportPeerLeaves == (nupd' = MaxUpdates /\ nupd = MaxUpdates - 1 /\ npeer = 1) => Export
 ASSUME ndJsonSerialize(IOEnv.VERIF_OUT \o ".sig", SetToSeq(SigCases))
 =============================================================================
